@@ -95,45 +95,14 @@ Proof.
       apply zipreduce_state_spec. exact IH.
 Qed.
 
-Lemma map_loopR_spec (g : gval -> R gval) (h : gval -> option gval) :
-  (forall e, g e = of_optg (h e)) -> forall l, map_loopR g l = of_optg (map_loopM h l).
-Proof.
-  intros H. induction l as [|sl l IH]; [reflexivity|]. cbn [map_loopR map_loopM]. rewrite H, IH.
-  destruct (h (unwrap sl)); cbn; [|reflexivity]. destruct (map_loopM h l); reflexivity.
-Qed.
-Lemma map_entriesR_spec (g : gval -> R gval) (h : gval -> option gval) :
-  (forall e, g e = of_optg (h e)) -> forall l, map_entriesR g l = of_optg (map_entriesM h l).
-Proof.
-  intros H. induction l as [|[k sl] l IH]; [reflexivity|]. cbn [map_entriesR map_entriesM]. rewrite H, IH.
-  destruct (h (unwrap sl)); cbn; [|reflexivity]. destruct (map_entriesM h l); reflexivity.
-Qed.
-Lemma rmapR_spec (g : gval -> R gval) (h : gval -> option gval) :
-  (forall e, g e = of_optg (h e)) -> forall x, rmapR g x = of_optg (rmapM h x).
-Proof.
-  intros H x. unfold rmapR, rmapM. destruct (is_nil x); [reflexivity|].
-  destruct x; try reflexivity.
-  - rewrite (map_loopR_spec g h H). destruct (map_loopM h fields); reflexivity.
-  - destruct isnil; [reflexivity|]. rewrite (map_loopR_spec g h H). destruct (map_loopM h elems); reflexivity.
-  - destruct isnil; [reflexivity|]. rewrite (map_entriesR_spec g h H). destruct (map_entriesM h entries); reflexivity.
-Qed.
-
-Lemma gm_rewrite_spec : forall f x s, gm_rewrite f x s = of_optg (grewrite f x s).
-Proof.
-  induction f as [|f IH]; intros x s; [reflexivity|].
-  cbn [gm_rewrite grewrite]. rewrite gm_walk_spec. destruct (gwalk f x s) as [x'|]; [|reflexivity]. cbn [of_optg bind].
-  unfold cast_var2. destruct (cast_var x') as [j|]; [reflexivity|].
-  apply rmapR_spec. intros e. apply IH.
-Qed.
-
 Theorem gomini_code_never_panics : forall f x y s i,
-  gm_unify f x y s <> Panic /\ gm_walk f x s <> Panic /\ gm_hasCycle f i y s <> Panic /\ gm_rewrite f x s <> Panic /\ gm_isLeaf x <> Panic.
+  gm_unify f x y s <> Panic /\ gm_walk f x s <> Panic /\ gm_hasCycle f i y s <> Panic /\ gm_isLeaf x <> Panic.
 Proof.
-  intros f x y s i. rewrite gm_unify_spec, gm_walk_spec, gm_hasCycle_spec, gm_rewrite_spec, gm_isLeaf_spec.
+  intros f x y s i. rewrite gm_unify_spec, gm_walk_spec, gm_hasCycle_spec, gm_isLeaf_spec.
   repeat split; try discriminate.
   - destruct (gunify f x y s); discriminate.
   - destruct (gwalk f x s); discriminate.
   - destruct (ghascycle f i y s); discriminate.
-  - destruct (grewrite f x s); discriminate.
 Qed.
 
 (* the property, on the generated code: the text of gomini/unify.go computes, on the term encodings of its arguments,
@@ -167,12 +136,4 @@ Proof.
   intros f x y s tx ty ts Hx Hy Hs H. rewrite gm_unify_spec in H.
   destruct (gunify f x y s) as [| |s1] eqn:E; try discriminate.
   exact (gunify_fail f x y s tx ty ts Hx Hy Hs E).
-Qed.
-
-Theorem gm_rewrite_resolved : forall f x s r,
-  wfb x = true -> gwf_sub s -> gm_rewrite f x s = Ret r ->
-  forall y, subval r y -> forall i, cast_var y = Some i -> gassv i s = None.
-Proof.
-  intros f x s r Hx Hs H. rewrite gm_rewrite_spec in H. destruct (grewrite f x s) as [r'|] eqn:E; [|discriminate].
-  inversion H; subst r'. exact (grewrite_resolved f x s r Hx Hs E).
 Qed.
